@@ -2,6 +2,7 @@
 # usage: tools/seedtest.sh <patch.diff> <ID> [<ID>..] : apply a seeded change to /repo, run the checks, undo it
 P="$1"; shift
 cd /verif
+git -C /repo diff --quiet || { echo "/repo has uncommitted changes: commit or stash them first (this script ends with git checkout -- .)"; exit 2; }
 git -C /repo apply --check "$P" || { echo "patch does not apply"; exit 2; }
 git -C /repo apply "$P"
 for id in "$@"; do
